@@ -186,8 +186,13 @@ def run(ctx: Ctx):
         dt = ctx.rng.choice([np.float64, np.complex128])
         k = ctx.rng.choice([2, 3])
         n = ctx.rng.choice([2, 3])
-        mats = [L.rand_dyadic_np(ctx.rng, (ctx.rng.choice([1, 2, 3]), n), cplx=L.is_complex(dt)).astype(dt) for _ in range(k)]
         kind = ctx.rng.choice(["V", "D"])
+        # diagonal stacks: operands with different input sizes too (inputs in blocks while the outputs may stack, and
+        # the other way round), so that every combination of input / output collapse occurs
+        ns = [n] * k if (kind == "V" or ctx.rng.random() < 0.4) else [ctx.rng.choice([2, 3, 4]) for _ in range(k)]
+        msame = ctx.rng.random() < 0.5
+        m0 = ctx.rng.choice([1, 2, 3])
+        mats = [L.rand_dyadic_np(ctx.rng, (m0 if msame else ctx.rng.choice([1, 2, 3]), ni), cplx=L.is_complex(dt)).astype(dt) for ni in ns]
         co, ci = ctx.rng.random() < 0.5, ctx.rng.random() < 0.5
         key = {"stack": kind, "mats": [m.tolist().__repr__() for m in mats], "collapse_output": co, "collapse_input": ci,
                "dtype": np.dtype(dt).name}
@@ -198,20 +203,21 @@ def run(ctx: Ctx):
             else:
                 S = linop.DiagonalStack(ops, collapse_input=ci, collapse_output=co)
             R = L.dense(S, S.input_shape, S.input_dtype)
+            Radj = L.dense(S.adj, S.output_shape, S.output_dtype)
         except Exception as ex:
-            ctx.violation("stack:" + kind, "building / evaluating a valid stack fails", key,
+            ctx.violation("stack:" + kind, "building / evaluating a valid stack (or its adjoint) fails", key,
                           observed=f"{type(ex).__name__}: {str(ex)[:200]}", oracle="evaluation")
             continue
-        blocks = coq_list([f"({n}%nat, {L.coq_mat(m)})" for m in mats])
-        total = n if kind == "V" else n * k
-        scases.append(f"({0 if kind == 'V' else 1}%nat, (@None Q), {blocks}, {total}%nat, {L.coq_mat(R)})")
+        blocks = coq_list([f"({ni}%nat, {L.coq_mat(m)})" for ni, m in zip(ns, mats)])
+        total = n if kind == "V" else sum(ns)
+        scases.append(f"({0 if kind == 'V' else 1}%nat, (@None Q), {blocks}, {total}%nat, {L.coq_mat(R)}, {L.coq_mat(Radj)})")
         smetas.append(key)
         ctx.count("stack:" + kind, key)
     if scases:
-        body = ("Definition cases : list (nat * option Q * list (nat * cmat) * nat * cmat) := " + coq_list(scases, ";\n ") + ".\n"
-                "Eval vm_compute in (bad_idx stack_case_ok cases 0%nat).")
-        for idx in parse_eval_nat_list(coq_eval_shards("C05_stack", HEADER, [body])[0]):
-            ctx.violation("stack:" + smetas[idx]["stack"], "the stacked operator is not the block matrix of its operands",
+        body = ("Definition cases : list (nat * option Q * list (nat * cmat) * nat * cmat * cmat) := " + coq_list(scases, ";\n ") + ".\n"
+                "Eval vm_compute in (bad_idx stack_case_ok2 cases 0%nat).")
+        for idx in parse_eval_nat_list(coq_eval_shards("C05_stack", HEADER + "From SV Require Import LinAlg.RepStack.\n", [body])[0]):
+            ctx.violation("stack:" + smetas[idx]["stack"], "the stacked operator (or its adjoint) is not the block matrix of its operands",
                           smetas[idx], expected="vstack / blockdiag (LinAlg/CQExpr.v)", observed="matrix differs",
                           oracle="mv_vstack / mv_blockdiag2")
 
